@@ -62,6 +62,16 @@ EXPLICIT = [
      "increase number of radical (c2) break bond(c1,c2) }", False),
     ("rule UBO{ reactant r1{ C labeled c1 O labeled o1 double bond to c1 } increase number of radical (c1) "
      "increase number of radical (o1) break bond(c1,o1) }", False),
+    # setting the number of radical electrons: the balance counts the change from what the pattern declares,
+    # on top of the other edits of the same atom
+    ("rule SET1{ reactant r1{ C labeled c1 H labeled h1 single bond to c1 } break bond(c1,h1) "
+     "increase number of radical (h1) modify number of radical (c1, 1) }", True),
+    ("rule SET0{ reactant r1{ C labeled c1 H labeled h1 single bond to c1 } break bond(c1,h1) "
+     "increase number of radical (h1) modify number of radical (c1, 0) }", False),
+    ("rule SET2{ reactant r1{ C. labeled c1 C. labeled c2 single bond to c1 } modify number of radical (c1, 0) "
+     "modify number of radical (c2, 0) increase bond order (c1,c2) }", True),
+    ("rule SET3{ reactant r1{ C. labeled c1 C labeled c2 single bond to c1 H labeled h1 single bond to c2 } "
+     "modify number of radical (c1, 0) form bond(c1,h1) break bond(c2,h1) modify number of radical (c2, 1) }", True),
     ("rule BAD1{ reactant r1{ C labeled c1 H labeled h1 single bond to c1 } break bond(c1,h1) }", False),
     ("rule BAD2{ reactant r1{ C labeled c1 H labeled h1 single bond to c1 } increase number of radical (c1) break bond(c1,h1) }", False),
     ("rule BAD3{ reactant r1{ C labeled c1 C labeled c2 double bond to c1 } decrease bond order (c1,c2) }", False),
@@ -71,7 +81,9 @@ EXPLICIT = [
 MOLS = ['C', 'CC', 'CCC', 'C=C', 'C#C', 'CC=C', 'CO', 'CCO', 'C=O', 'CC(C)C', 'C1CC1', 'C1CCC1', 'c1ccccc1',
         '[CH3]', 'C[CH2]', '[CH2][CH2]', '[CH2]C[CH2]', '[CH2]CC[CH2]', '[CH2]CC', 'O', 'OO', 'C[O]', 'C=CC=C',
         'CC#C', 'CC(=O)O', 'C([Pt])C', 'CN', '[CH2]O', 'C1=CC1', 'CS',
-        '[CH]=[CH]', '[CH2][CH][CH]=[CH]', 'C=CC#C', 'O=CCO', '[CH2][CH]C1[CH][CH]1']
+        '[CH]=[CH]', '[CH2][CH][CH]=[CH]', 'C=CC#C', 'O=CCO', '[CH2][CH]C1[CH][CH]1',
+        # species already in the list, atoms in another order (the rule objects are reused)
+        'OCC', 'C(C)O', 'C(=C)C', 'OC', 'O=C(O)C', '[CH2]C']
 
 
 def graph_of(products):
